@@ -816,8 +816,9 @@ def setup(ctx):
                 "else chains of 1-5 branches; conditions of depth <= 3 over 3 flavors and 2 types with ==, !=, ||, &&, "
                 "parentheses) under a random layout (indentation, blank and comment lines, trailing comments, letter case "
                 "of command names and of FLAVOR/TYPE, quoting of values and literals, separators, optional semicolon), "
-                "each evaluated for every mentioned flavor x type plus one unmentioned flavor and type; plus every chain "
-                "<= 3 branches with conditions <= 2 operators in plain layout; plus legacy files (new-style Flavor= groups and old-style "
+                "each evaluated for every mentioned flavor x type plus one unmentioned flavor and type; plus a small-scope sweep "
+                "in plain layout (chains of 1-3 branches, with and without else, whose first condition ranges over every "
+                "condition with <= 2 operators over three atoms, all parenthesisations); plus legacy files (new-style Flavor= groups and old-style "
                 "Group:/Flavor=/Common:/End: blocks with 1-3 flavors each, oracle: the body applies iff the flavor is listed); "
                 "plus a malformed stream (accept/raise, "
                 "actions and parsed block structure) and a condition token-soup stream (python value of eval). "
@@ -834,7 +835,9 @@ def setup(ctx):
         "flavor names start with a letter and are not True/False/EOF/or/and/not/flavor/type; condition literals likewise",
         "operands ${VAR}, the operators =~ !~ < <= > >= (hence the old-style wildcard Flavor=ANY) and expandEupsVariables are "
         "not modelled",
-        "the table is read with a topProduct (envUnset(PRODUCT_DIR) names its directory variable)"]
+        "the table is read with a topProduct (envUnset(PRODUCT_DIR) names its directory variable)",
+        "theorems cover the operator spellings || and &&; the word forms or / and / not / ! are modelled and compared "
+        "(malformed and condition streams) but not part of the proved grammar"]
 
 
 def run(ctx):
@@ -856,7 +859,7 @@ def run(ctx):
         cases.append(g_condcase(ctx.rng))
     for c in cases[:3]:
         ctx.sample({"text": c["text"], "envs": c.get("envs")})
-    ctx.exhaustive = ctx.tier == "thorough"
+    ctx.exhaustive = False
     for i in range(0, len(cases), 5000):
         compare(ctx, cases[i:i + 5000], shrink=(i == 0))
 
